@@ -456,6 +456,16 @@ func builtinIntercepts() map[string]intercept {
 		t := args[0].(*smt.Term)
 		return []Value{x.e.C.BV(t.W, x.concretize(t, "Split8"))}
 	}
+	m[apiPkg+"Havoc"] = func(x *Exec, fn *ssa.Function, args []Value) []Value {
+		iv := args[0].(Iface)
+		pt, ok := iv.T.Underlying().(*types.Pointer)
+		if !ok {
+			efail("Havoc needs a pointer")
+		}
+		p := iv.V.(Pointer)
+		x.havoc(p, pt.Elem(), 0)
+		return nil
+	}
 	m[apiPkg+"Symbolic"] = func(x *Exec, fn *ssa.Function, args []Value) []Value {
 		return []Value{x.e.C.True()}
 	}
@@ -574,7 +584,12 @@ func builtinIntercepts() map[string]intercept {
 				return []Value{v}
 			}
 		}
-		x.e.stubs["sync.Pool.Get (always calls New: fresh-process pool)"] = true
+		if v, ok := x.pools[p.Obj]; ok {
+			delete(x.pools, p.Obj)
+			x.e.stubs["sync.Pool (one-slot LIFO: Get returns the last object Put, else New())"] = true
+			return []Value{v}
+		}
+		x.e.stubs["sync.Pool (one-slot LIFO: Get returns the last object Put, else New())"] = true
 		// field New is the last slot of sync.Pool
 		st := x.e.P.Prog.ImportedPackage("sync").Type("Pool").Type().Underlying().(*types.Struct)
 		for i := 0; i < st.NumFields(); i++ {
@@ -587,7 +602,15 @@ func builtinIntercepts() map[string]intercept {
 		}
 		return []Value{Iface{}}
 	}
-	m["(*sync.Pool).Put"] = nop
+	m["(*sync.Pool).Put"] = func(x *Exec, fn *ssa.Function, args []Value) []Value {
+		// one-slot LIFO model of sync.Pool: the last object put is what the next Get returns
+		p := args[0].(Pointer)
+		if x.pools == nil {
+			x.pools = map[*Object]Value{}
+		}
+		x.pools[p.Obj] = args[1]
+		return nil
+	}
 	m["runtime.GOMAXPROCS"] = func(x *Exec, fn *ssa.Function, args []Value) []Value {
 		if x.procs != nil {
 			return []Value{x.procs}
@@ -794,4 +817,45 @@ func (x *Exec) bitLen(t *smt.Term) *smt.Term {
 		acc = C.Ite(C.Eq(C.Extract(t, i, i), C.BV(1, 1)), x.e.intTerm(int64(i+1)), acc)
 	}
 	return acc
+}
+
+// havoc makes every integer/boolean cell reachable through t at p (struct fields, array elements,
+// elements of non-nil slices) a fresh unconstrained symbol, in depth-first declaration order
+// (the native implementation in verifapi walks in the same order).
+func (x *Exec) havoc(p Pointer, t types.Type, depth int) {
+	if depth > 6 {
+		return
+	}
+	switch u := t.Underlying().(type) {
+	case *types.Struct:
+		for i := 0; i < u.NumFields(); i++ {
+			fp := p
+			fp.Off += x.e.lay.fieldOffset(u, i)
+			x.havoc(fp, u.Field(i).Type(), depth+1)
+		}
+	case *types.Array:
+		k := x.e.lay.slots(u.Elem())
+		for i := 0; i < int(u.Len()); i++ {
+			ep := p
+			ep.Off += i * k
+			x.havoc(ep, u.Elem(), depth+1)
+		}
+	case *types.Slice:
+		sv, ok := x.read(p.Obj, p.Off).(Slice)
+		if !ok || sv.P.Obj == nil || !sv.Len.IsConst() {
+			return
+		}
+		k := x.e.lay.slots(u.Elem())
+		for i := 0; i < int(sv.Len.Val); i++ {
+			ep := sv.P
+			ep.Off += i * k
+			x.havoc(ep, u.Elem(), depth+1)
+		}
+	case *types.Basic:
+		if w, _, ok := x.e.lay.intInfo(t); ok {
+			x.write(p.Obj, p.Off, x.nondet(x.strConst("havoc"), w))
+		} else if u.Info()&types.IsBoolean != 0 {
+			x.write(p.Obj, p.Off, x.nondet(x.strConst("havoc"), 0))
+		}
+	}
 }
